@@ -1,0 +1,61 @@
+//go:build verif
+
+// Contracts for the gvc verification-condition generator (see /verif/DESIGN.md).
+// This file contains no executable code: a package clause and comments only.
+
+package s3
+
+/*@
+// ---------------------------------------------------------------------------
+// C20 lease: every conditional storage request follows the compare-and-swap discipline.
+// Ghosts record what the storage requests of one call returned.
+ghost c20_putErr Int
+ghost c20_writeErr Int
+ghost c20_newETag Int
+ghost c20_sawExpired Bool
+ghost c20_delErr Int
+
+func s3.(*Leaser).writeLease(l, ctx, lease, etag) (newETag, err)
+  requires l != nil && l.s3 != nil && lease != nil
+  modifies $alloc, c20_putErr
+  at s3.S3API.PutObject#1 assert [C20.put-if-none-match] etag == "" ==> input.IfNoneMatch != nil && *input.IfNoneMatch == "*" && input.IfMatch == nil
+  at s3.S3API.PutObject#1 assert [C20.put-if-match] etag != "" ==> input.IfMatch != nil && *input.IfMatch == etag && input.IfNoneMatch == nil
+  at s3.S3API.PutObject#1 set c20_putErr = $result1
+  ensures [C20.put-result] err == nil ==> c20_putErr == nil
+  ensures [C20.put-fail] c20_putErr != nil ==> err != nil
+
+func s3.(*Leaser).readLease(l, ctx) (lease, etag, err)
+  requires l != nil && l.s3 != nil
+  modifies $alloc, all(litestream.Lease)
+  ensures [C20.read] lease == nil ==> etag == "" && err != nil
+  ensures [C20.read-etag] lease != nil ==> err == nil && lease.ETag == etag && fresh(lease)
+
+func s3.(*Leaser).AcquireLease(l, ctx) (lease, err)
+  requires l != nil && l.s3 != nil
+  modifies $heap, $alloc, c20_putErr, c20_writeErr, c20_newETag, c20_sawExpired
+  at litestream.(*Lease).IsExpired#1 set c20_sawExpired = $result0
+  at s3.(*Leaser).writeLease#all assert [C20.acquire-etag] $arg2 == etag && (existing == nil ==> etag == "") && (existing != nil ==> etag == existing.ETag)
+  at s3.(*Leaser).writeLease#all assert [C20.acquire-expired] existing != nil ==> c20_sawExpired
+  at s3.(*Leaser).writeLease#all assert [C20.acquire-generation] $arg1 == newLease && (existing != nil && existing.Generation < 9223372036854775807 ==> newLease.Generation == existing.Generation + 1) && (existing == nil ==> newLease.Generation == 1) && newLease.Owner == l.Owner
+  at s3.(*Leaser).writeLease#1 set c20_writeErr = $result1
+  at s3.(*Leaser).writeLease#1 set c20_newETag = $result0
+  ensures [C20.acquire-result] lease != nil ==> err == nil && c20_writeErr == nil && lease.ETag == c20_newETag
+  ensures [C20.acquire-fail] c20_writeErr != nil ==> lease == nil && err != nil
+
+func s3.(*Leaser).RenewLease(l, ctx, lease) (renewed, err)
+  requires l != nil && l.s3 != nil
+  modifies $heap, $alloc, c20_putErr, c20_writeErr, c20_newETag
+  at s3.(*Leaser).writeLease#all assert [C20.renew-etag] lease != nil && lease.ETag != "" && $arg2 == lease.ETag
+  at s3.(*Leaser).writeLease#all assert [C20.renew-generation] $arg1 == newLease && newLease.Generation == lease.Generation && newLease.Owner == l.Owner
+  at s3.(*Leaser).writeLease#1 set c20_writeErr = $result1
+  at s3.(*Leaser).writeLease#1 set c20_newETag = $result0
+  ensures [C20.renew-result] renewed != nil ==> err == nil && c20_writeErr == nil && renewed.ETag == c20_newETag
+  ensures [C20.renew-fail] c20_writeErr != nil ==> renewed == nil && err != nil
+
+func s3.(*Leaser).ReleaseLease(l, ctx, lease) (err)
+  requires l != nil && l.s3 != nil
+  modifies $heap, $alloc, c20_delErr
+  at s3.S3API.DeleteObject#all assert [C20.release-if-match] lease != nil && lease.ETag != "" && $arg1.IfMatch != nil && *$arg1.IfMatch == lease.ETag
+  at s3.S3API.DeleteObject#1 set c20_delErr = $result1
+  ensures [C20.release-result] err == nil ==> c20_delErr == nil
+*/
